@@ -95,6 +95,7 @@ def floors(tier: str):
     f = {f"kind:{g}:{k}": need for g in (4, 5) for k in gens.KINDS[g]}
     f["payload-over-255-bytes"] = 40
     f["queued-then-flushed"] = 1000
+    f["slow-peer-holds-references"] = 1000
     return f
 
 
@@ -133,6 +134,9 @@ def check_case(gen: int, kind: str, items, pid0: int, stats: Stats | None = None
 
     a = SockRig(gen)
     try:
+        # every second case: a peer that takes the bytes late, so that the transport still holds the objects it was given
+        # when the next frame is built (a selector transport buffers references, not copies)
+        a.net.slow_peer = slow = (pid0 % 2 == 1)
         if queued:
             a.net.script.append(("refuse", 0.0))
         a.open()
@@ -219,7 +223,8 @@ def check_case(gen: int, kind: str, items, pid0: int, stats: Stats | None = None
         nt = _nontrivial([m for m, _ in items], hdrs) or len(wire) > 3 * (refproto.header_len(gen) + 2) + 3 * 12
         big = ["payload-over-255-bytes"] if any(len(fr.data) > 255 for fr in pr.frames) else []
         stats.case(wire.hex() + ("q" if queued else ""), nt,
-                   classes=[f"kind:{gen}:{kind}", "explicit-header" if any(hdrs) else "factory-header"] + big + (["queued-then-flushed"] if queued else []),
+                   classes=[f"kind:{gen}:{kind}", "explicit-header" if any(hdrs) else "factory-header"] + big + (["queued-then-flushed"] if queued else [])
+                   + (["slow-peer-holds-references"] if slow else []),
                    sample={"gen": gen, "kind": kind, "wire": wire.hex()[:400],
                            "messages": [ser.brief(m, 200) for m, _ in items]})
 
